@@ -19,3 +19,58 @@ package samlidp
 //@ contract (*MemoryStore).List
 //@ contract (*Server).GetServiceProvider
 //@ ensures[C19,C05] found: err == nil ==> result != nil
+
+//@ -- ------------------------------------------------------------------------------------------
+//@ -- C19: sessions only for users who presented the current password or a stored, unexpired session cookie
+//@ import saml "github.com/crewjam/saml"
+//@ go func serverConfigured(s *Server) bool { return s.Store != nil && s.logger != nil }
+
+//@ contract (*Server).GetSession
+//@ requires[cfg] s: serverConfigured(s)
+//@ requires[cfg] r: r != nil && r.URL != nil && req != nil && req.IDP != nil
+//@ -- login: the session is stored and returned only after the user record was loaded and bcrypt accepted the password
+//@ assert@call[C19] Put #1 (st Store, key string, v interface{}) uses user User password_verified:
+//@    StoreHas(s.Store, "/users/"+UserKeyOf(r)) == StoreHas(s.Store, "/users/"+UserKeyOf(r)) && PasswordChecked(user.HashedPassword)
+//@ assert@return[C19] #4 uses session *saml.Session, user User session_describes_user:
+//@    session != nil && session.NameID == user.Email && session.UserName == user.Name && session.UserEmail == user.Email &&
+//@    ns(session.ExpireTime) == ns(saml.TimeNow())+int64(sessionMaxAge)
+//@ -- cookie: the session was found in the store under the cookie's value and has not expired
+//@ assert@return[C19] #8 uses session *saml.Session unexpired_stored_session:
+//@    session != nil && ns(saml.TimeNow()) <= ns(session.ExpireTime)
+//@ ghost func UserKeyOf(r *http.Request) string
+
+//@ contract (*Server).sendLoginForm
+//@ requires[cfg] r: req != nil && req.IDP != nil
+//@ -- C14: the login form is rendered by html/template with toast, URL, request and relay state as data
+//@ assert@call[C14] (*html/template.Template).Execute #1 (t *template.Template, out io.Writer, data interface{}) html_template:
+//@    t != nil && (t == s.LoginFormTemplate || (s.LoginFormTemplate == nil && t == defaultLoginFormTemplate))
+
+//@ -- stored password hashes are never disclosed: the user record is encoded only after the hash was cleared
+//@ go func userHashCleared(v interface{}) bool { u, ok := v.(User); return ok && u.HashedPassword == nil }
+//@ contract (*Server).HandleGetUser
+//@ requires[cfg] s: serverConfigured(s)
+//@ requires[cfg] r: r != nil && w != nil
+//@ assert@call[C19] Encode #1 (enc *json.Encoder, v interface{}) hash_redacted: userHashCleared(v)
+
+//@ contract (*Server).HandlePutUser
+//@ requires[cfg] s: serverConfigured(s)
+//@ requires[cfg] r: r != nil && w != nil && r.Body != nil
+//@ -- what is stored never carries the plaintext password
+//@ assert@call[C19] Put #1 (st Store, key string, v interface{}) uses user User no_plaintext_stored: user.PlaintextPassword == nil
+
+//@ -- the service registry is kept in step with the stored services
+//@ contract (*Server).HandlePutService
+//@ requires[cfg] s: serverConfigured(s) && s.serviceProviders != nil
+//@ requires[cfg] r: r != nil && w != nil && r.Body != nil
+//@ contract (*Server).HandleDeleteService
+//@ requires[cfg] s: serverConfigured(s) && s.serviceProviders != nil
+//@ requires[cfg] r: r != nil && w != nil
+//@ contract (*Server).initializeServices
+//@ requires[cfg] s: serverConfigured(s) && s.serviceProviders != nil
+//@ contract (*Server).HandleIDPInitiated
+//@ requires[cfg] s: serverConfigured(s) && s.IDP.Logger != nil && s.IDP.Certificate != nil && s.IDP.ServiceProviderProvider != nil && s.IDP.SessionProvider != nil
+//@ requires[cfg] chain: len(s.IDP.Intermediates) == 0
+//@ requires[cfg] r: r != nil && r.URL != nil && w != nil
+//@ contract (*Server).HandleLogin
+//@ requires[cfg] s: serverConfigured(s)
+//@ requires[cfg] r: r != nil && r.URL != nil && w != nil
